@@ -396,13 +396,20 @@ def run(tier, seed, argv):
         sk = skeletons(3, 3, 2)
         kinds = ["S", "SI"]
     else:
-        sk = skeletons(4, 4, 3)
+        # all skeletons of depth<=3 / leaves<=4 / 2 children, plus a deterministic sample of the deeper and wider families
+        sk = skeletons(3, 4, 2)
+        import random
+
+        rng = random.Random(seed)
+        for fam in (skeletons(4, 4, 2), skeletons(3, 4, 3)):
+            extra = [t for t in fam if t not in set(sk)]
+            sk += rng.sample(extra, min(400, len(extra)))
         kinds = ["S", "SI", "IS", "I"]
     jobs = []
     for i, t in enumerate(sk):
         for kk in kinds:
             jobs.append(dict(id=f"t{i}{kk}", module="checks.c16", factory="make", cfg=dict(tree=t, kinds=kk)))
-    rep.bounds = dict(tree_skeletons=len(sk), depth="<=3" if tier == "quick" else "<=4", leaves="<=3" if tier == "quick" else "<=4", key_strings="z3 String, length<=4, any characters",
+    rep.bounds = dict(tree_skeletons=len(sk), depth="<=3" if tier == "quick" else "<=3 exhaustively, depth 4 / 3 children sampled (800 skeletons, seeded)", leaves="<=3" if tier == "quick" else "<=4", key_strings="z3 String, length<=4, any characters",
                       key_kinds=kinds, module_graphs=len(module_graphs()))
     rep.assumptions = ["json.loads(json.dumps(l)) == l and dumps injective for lists of str|int (stub); backed by a concrete adversarial-key pass through the real json",
                        "sibling keys of one dict are distinct (they are dict keys)", "tree skeletons / object graphs enumerated up to the bound; tensor contents symbolic"]
